@@ -283,7 +283,24 @@ func replay(o *hlib.Out, path string) {
 			o.Case(l, "badreplay")
 			continue
 		}
+		if len(ws) >= 5 && (ws[0] == "PROPFAIL" || ws[0] == "OK") && ws[1] == "big" {
+			ws = ws[1:]
+		}
 		switch ws[0] {
+		case "big":
+			sd, e1 := strconv.ParseUint(ws[2], 10, 64)
+			v, e2 := strconv.Atoi(strings.TrimSuffix(ws[3], ":"))
+			if e1 != nil || e2 != nil {
+				o.Case(l, "badreplay")
+				continue
+			}
+			bigRun(o, sd, v)
+		case "nst":
+			if len(ws) < 5 {
+				o.Case(l, "badreplay")
+				continue
+			}
+			nstCase(o, ws[1], hlib.UnHex(ws[2]), ws[3], hlib.UnHex(ws[4]), strings.Join(ws[5:], " "))
 		case "crc":
 			if len(ws) != 5 {
 				o.Case(l, "badreplay")
@@ -365,6 +382,7 @@ func main() {
 		{"bzip2", genBzip2, pick(39, 117), pick(3, 8), pick(24, 64), false},
 	}
 	off := int(r.U64() % 1000)
+	pool := map[string][]*fcase{}
 	for _, g := range gens {
 		var cases []*fcase
 		for i := 0; i < g.n; i++ {
@@ -380,6 +398,7 @@ func main() {
 			o.Stat("skipped_"+g.format+"_no_writer", 1)
 			continue
 		}
+		pool[g.format] = append(pool[g.format], cases...)
 		base := decCases(o, g.format, cases)
 		// corruption: files with regions, smallest first so that whole regions are enumerated
 		done := 0
@@ -394,6 +413,13 @@ func main() {
 			corCase(o, g.format, c.file, cs)
 			done++
 		}
+	}
+	// 3. containers inside containers (reached by fq's probing), one and two levels deep
+	nestedCases(o, r, pool, pick(9, 30))
+
+	// 4. multi-MiB files on disk through the CLI's open stack (read-ahead cache)
+	for v := 0; v < pick(6, 18); v++ {
+		bigRun(o, r.U64(), v)
 	}
 	_ = bytes.Equal
 }
